@@ -462,6 +462,26 @@ def call(objs, st, tmp):
     raise ValueError(act)
 
 
+def _squared(f, d, fz):
+    """Projection of file f with the variables that have dimension d (or one
+    of its numbered variants, for the fuzzy string form) squared."""
+    import re
+    pj = project(f)
+    for rec in pj['vars']:
+        hit = [k for k in rec['dims'] if k == d or (
+            fz is not None and k.startswith(d) and re.fullmatch(
+                '[0-9]+', k[len(d):]))]
+        if not hit:
+            continue
+        v = f.variables[rec['name']]
+        arr = np.ma.asarray(v[...]).astype('d') ** 2
+        from project import _cells
+        rec['enc'], rec['cells'], rec['mask'] = _cells(arr, False)
+        if rec['enc'] == 'rat':
+            rec['cells'], rec['den'] = rec['cells']
+    return pj
+
+
 def execute(arg):
     """Run one program; returns the trace."""
     tid, prog, focus = arg
@@ -493,6 +513,12 @@ def execute(arg):
                     objs.append(new)
                     last.append(None)
                     rec['new'] = len(objs)
+                    # a standard deviation is decided through its square
+                    fns = st.get('args', {}).get('funcs', [])
+                    if st['act'] == 'apply' and len(fns) == 1 and \
+                            fns[0]['f'] == 'std':
+                        rec['sq'] = _squared(new, fns[0]['d'],
+                                             st['args'].get('fz'))
             except (Exception, SystemExit) as ex:
                 # (pncdump's exception handler calls exit())
                 rec['res'] = 'raised'
@@ -620,7 +646,9 @@ def _gen_step(rnd, sh, src, shadows, focus=None, strict=False):
             elif rnd.random() < 0.65:
                 fs.append({'d': d, 'kind': 'reducer',
                            'f': rnd.choice(['sum', 'min', 'max', 'mean',
-                                            'var', 'mean', 'sum'])})
+                                            'var', 'mean', 'sum'] +
+                                           (['std', 'std'] if nd == 1
+                                            else []))})
             else:
                 fs.append({'d': d, 'kind': 'callable',
                            'f': rnd.choice(sorted(CALLABLES))})
